@@ -42,6 +42,18 @@ def script(rng, case):
     if rng.random() < 0.4:
         sc.append({'at': rng.randint(2, 15), 'cmd': 'set_graph_window_extent',
                    'args': {'n_edge_distance': rng.choice([0, 1, 2, 3])}})
+    if rng.random() < 0.3:
+        # a pooled task triggered together with one of its parents
+        sc.append({'at': rng.randint(2, 15), 'cmd': 'force_trigger_tasks',
+                   'args': {'tasks': ['@pooled-chain'],
+                            'flow': rng.choice([['all'], ['none'], ['none'],
+                                                ['new']])}})
+    trig = [a for a in sc if a['cmd'] == 'force_trigger_tasks']
+    if trig and rng.random() < 0.3:
+        # a reload requested in the iteration of a trigger, or the next one
+        a = rng.choice(trig)
+        sc.append({'at': a['at'] + rng.choice([0, 1]),
+                   'cmd': 'reload_workflow', 'args': {}})
     return sorted(sc, key=lambda a: a['at'])
 
 
